@@ -168,6 +168,44 @@ NEEDS.update({
  "r6-C18-v1": "query dropped as a whole when ParseQuery reports an error: a well-formed pair next to a malformed one (%zz, ';')",
  "r6-C18-v2": "shortcut hands every request the same Params map (as r6-C05-v1): an earlier request wrote a key that a later request reads as a bind parameter",
 })
+NEEDS.update({
+ "r8-C01-v1": "not-found straight after a shortcut miss when the method has no dynamic route: every route of the method fully static; request for the short form of an optional-static route or with extra leading slashes",
+ "r8-C01-v2": "insertion index computed before the short form of a single optional top-level segment is added: such a route registered after an equally ranked sibling - later route wins",
+ "r8-C02-v1": "expression not wrapped when it 'already is a group' (starts with '(' and ends with ')'): groups in sequence or alternation such as ([0-9]+)-([0-9]+), (v1)|(v2)",
+ "r8-C02-v2": "reserved parameter route taken from the registration text: a route registered in a non-canonical spelling (no blank / several blanks after ':' or ',')",
+ "r8-C03-v1": "a group declared with the empty path is skipped together with its handlers: Group(\"\", fn, h)",
+ "r8-C03-v2": "only context.Canceled stops the chain: request context done because its deadline has passed",
+ "r8-C04-v1": "SetParent links past scopes that are empty at linking time: three nested injectors linked outermost first, middle one populated later",
+ "r8-C04-v2": "Apply returns at the first unsettable tagged field: an unexported tagged field declared before an exported tagged one",
+ "r8-C05-v1": "per-method tables created on demand while serving: a request with a method the router has no table for, concurrent with any other (map write vs read)",
+ "r8-C05-v2": "ETag composed in a package-level buffer: Static with SetETag and overlapping requests for files",
+ "r8-C06-v1": "static-route fast path indexes a 128-entry table with the raw byte: first non-identifier byte >= 0x80 - panic",
+ "r8-C06-v2": "(?i) on the lexer classes: U+212A KELVIN SIGN / U+017F LONG S fold to k / s and are accepted",
+ "r8-C07-v1": "rest[len(rest)-1] on an empty remainder: match-all leaf with capture limit, one captured segment followed by a trailing slash - panic",
+ "r8-C07-v2": "request method upper-cased before lookup: 'get' / 'Post' served by the GET / POST route instead of the not-found chain",
+ "r8-C08-v1": "stale leaf list written back after the short form '/' was added: single-segment optional route, its instance '/' is lost",
+ "r8-C08-v2": "bind uniqueness inside one segment no longer recorded: /files/{name}.{name} accepted",
+ "r8-C09-v1": "failed constraint on a shortcut hit answers not-found at once: constrained static route overlapping a dynamic route of the same method",
+ "r8-C09-v2": "anchored literal expressions compared with EqualFold: ^prod$ and a value differing in letter case only",
+ "r8-C10-v1": "reserved parameter route = URL.Path on the shortcut: optional-static route requested by its long path",
+ "r8-C10-v2": "static leaf under a regex ancestor reported as fully static: stored in the shortcut under its URL template, request spelling the template literally",
+ "r8-C11-v1": "router remembers the first Combo per path: a second Combo call for the same route with other common handlers",
+ "r8-C11-v2": "AutoHead evaluated at request time: flag toggled during registration, or GET declared other than through Get, HEAD request",
+ "r8-C12-v1": "optional segment cut at the last '/' of the substituted path: optional bind segment, built without withOptional, value containing '/'",
+ "r8-C12-v2": "values with '%' decoded by QueryUnescape: a value containing both a %XX escape and '+' (round trip through the dispatched request)",
+ "r8-C13-v1": "before-function list detached with [:0]: a before function registers another one while the list runs, overwriting the first-registered",
+ "r8-C13-v2": "NewResponseWriter returns an existing flamego writer unchanged: wrapper around a wrapper with a different method or an already written inner one",
+ "r8-C14-v1": "return values of the final action never reach the ReturnHandler: Flame.Action returning a value",
+ "r8-C14-v2": "fast path for func() (int, string) writes by itself: custom ReturnHandler bypassed for that shape only",
+ "r8-C15-v1": "panic detail appended when the response had already started, before the environment check: production/test mode, panic after a write",
+ "r8-C15-v2": "unchecked w.(http.Flusher) on the mapped writer: a handler re-mapped http.ResponseWriter to a plain embedding wrapper - second panic escapes",
+ "r8-C16-v1": "TrimRight(file, \"/.\"): a path ending in dots (/hello.txt., /docs/../) serves another entry",
+ "r8-C16-v2": "method guard moved below the directory redirect: POST/PUT/... to a directory without trailing slash gets 302",
+ "r8-C17-v1": "status sent with the first body byte: Render.XML of a value whose encoding is empty (empty / nil slice, nil pointer)",
+ "r8-C17-v2": "caller's options overwrite the default charset: RenderOptions without Charset",
+ "r8-C18-v1": "cookie escaping ranges over runes: cookie value that is not valid UTF-8",
+ "r8-C18-v2": "integers parsed with base 0: 010, 0x10, 0b101, 1_000",
+})
 for i, (c, what) in enumerate([("16996b9", "C02"), ("b1ad9ca", "C02"), ("dc445d8", "C08"), ("50e6683", "C12"), ("8943820", "C09"), ("e71688c", "C10"), ("c547909", "C08"), ("4ac932e", "C09"), ("356c62b", "C03"), ("f4314d8", "C14"), ("9fed95b", "C11"), ("788edcd", "C10"), ("be19d8a", "C17"), ("90f334b", "C15")], 1):
     NEEDS["rev-F%02d" % i] = "reverse of fix commit %s: the defect as it was in the pinned tree (see known_findings.txt and DESIGN.md section 6)" % c
 REVPROP = {"rev-F01": "C02", "rev-F02": "C02", "rev-F03": "C08", "rev-F04": "C12", "rev-F05": "C09", "rev-F06": "C10", "rev-F07": "C08", "rev-F08": "C09", "rev-F09": "C03", "rev-F10": "C14", "rev-F11": "C11", "rev-F12": "C10", "rev-F13": "C17", "rev-F14": "C15"}
